@@ -7,7 +7,7 @@ ID = "C15"
 TITLE = "Penalty methods are zero on the feasible set and follow their formulas"
 PROPS_FILE = "Props/Properties_C15.v"
 LEVEL = "proof"
-SIZES = {"quick": 1400, "thorough": 30000}
+SIZES = {"quick": 2000, "thorough": 30000}
 PARALLEL = True
 SHARD = 120
 COQ_TIMEOUT = 900
@@ -21,7 +21,8 @@ TRUSTED = ["real-number axioms of Coq's standard library (Reals) for the algebra
            "conditions, base functions and numpy.log are harness-owned/recorded tables in the correspondence (the theorems quantify over them)",
            "exact class (dyadic grid, no barrier / lagrange_inequality / combinator level): model run over Q and compared exactly; "
            "other cases: model run over binary64 (PrimFloat) in the code's operation order and compared within 1e-9*(1+|v|)"]
-ASSUMPTIONS = ["IEEE rounding in the penalty formulas is modelled, not verified (theorems are over the reals)",
+ASSUMPTIONS = ["numpy-scalar conditions combined with k*h**n == 0 (numpy division gives inf/nan instead of ZeroDivisionError) are outside the model",
+               "IEEE rounding in the penalty formulas is modelled, not verified (theorems are over the reals)",
                "negative / slice arguments of stored(i), iter(i), store(x,i) are outside the model (nat only)",
                "k = inf is modelled precisely for the uniform kinds only (other kinds: 'some non-finite value')",
                "applying one decorator instance to two functions (shared closure cells) is outside the model",
@@ -195,7 +196,23 @@ def _settings(rng):
     return s
 
 
+def _sanitize(case):
+    """numpy scalars do not raise ZeroDivisionError (k*h**n == 0 then gives inf/nan instead of an exception): conditions
+    return numpy.float64 only in cases without a zero / negative multiplier"""
+    nests = list(case.get("members", [])) + ([case["top"]] if "top" in case else [])
+    lvls = [lv for ns in nests for lv in ns["levels"]]
+    if any(lv["k"] in (0, -1) or lv["h"] == 0 for lv in lvls):
+        for lv in lvls:
+            lv["cond"].pop("np", None)
+    return case
+
+
 def generate(rng, n, tier):
+    for c in _generate(rng, n, tier):
+        yield _sanitize(c)
+
+
+def _generate(rng, n, tier):
     for idx in range(n):
         dim = rng.choice([1, 1, 2, 3])
         points = _points(rng, dim)
